@@ -191,19 +191,34 @@ example : (processStatement RemoveAssertions.matcher true
   simp [processStatement, RemoveAssertions.matcher, RemoveAssertions.matchesPrefix, isUsed, preserveArgumentsSideEffects,
     argCandidates, List.filter, keeps_call, keeps_true, keeps_paren, expressionsAsStatement, asStatements, pushValue,
     getInner, isCall]
--- the hypotheses of `assert_refines` are met by a concrete instance (callee hands its arguments back)
-example : ∃ (call : CallFn unitOps) (env : Env unitOps) (σ : State unitOps),
-    ∀ avs σ', callVal call (fun _ _ _ => []) 1 (lookupVar env "assert" σ) avs σ' = .ok avs σ' ∨ σ'.closures = [] :=
-  ⟨fun _ args σ => .ok args σ, ⟨[("assert", 0)], []⟩, witnessState, by
-    intro avs σ'
-    simp only [lookupVar, lookupAssoc, witnessState, State.getCell]
-    by_cases h : σ'.closures = []
-    · exact Or.inr h
-    · left
-      match hc : σ'.closures with
-      | [] => exact absurd hc h
-      | c :: cs => simp [callVal, hc]⟩
-example : PureAt (N := unitOps) (fun _ a σ => .ok a σ) (fun _ _ _ => []) 1 ⟨[], []⟩ .true := fun σ => ⟨_, rfl⟩
+-- the hypotheses of `assert_refines` are met by a concrete instance: `assert` is a global holding a
+-- closure, the call handler hands the arguments back, one argument is an external call, one is pure
+example :
+    let call : CallFn unitOps := fun _ args σ => .ok args σ
+    let σ0 : State unitOps := { witnessState with globals := [("assert", .fn 0), ("f", .builtin "f")] }
+    let args : List Expr := [.call (.var "f") none .tuple [], .true]
+    execS call (fun _ _ _ => []) 2 ⟨[], []⟩
+        (processStatement RemoveAssertions.matcher true (.callStmt (.call (.var "assert") none .tuple args)) {}).1 σ0
+      = execS call (fun _ _ _ => []) 2 ⟨[], []⟩ (.callStmt (.call (.var "assert") none .tuple args)) σ0 := by
+  intro call σ0 args
+  apply assert_refines
+  · simp [isUsed]
+  · intro avs σ' he
+    have hl : libNames.contains "f" = false := by decide
+    simp [args, σ0, evalEs, evalE, Res.bind, lookupVar, lookupAssoc, State.getGlobal, callVal, hl, first,
+      witnessState] at he
+    obtain ⟨_, rfl⟩ := he
+    simp [σ0, call, lookupVar, lookupAssoc, State.getGlobal, witnessState, callVal]
+  · intro e he hk
+    simp only [args, List.mem_cons, List.mem_nil_iff, or_false] at he
+    rcases he with rfl | rfl
+    · simp [keeps_call] at hk
+    · exact fun σ => ⟨_, rfl⟩
+  · intro e he hk
+    simp only [args, List.mem_cons, List.mem_nil_iff, or_false] at he
+    rcases he with rfl | rfl
+    · simp [getInner, isCall]
+    · simp [keeps_true] at hk
 
 /-! ### F31: a single kept non-call argument becomes a bare `local _ = …` -/
 
